@@ -572,6 +572,20 @@ class Check:
             discharged = 0
         self.cov['discharged'] = discharged
         self.cov['axioms_per_theorem'] = axioms_used
+        if self.tier == 'thorough' and rc == 0 and os.environ.get('VERIF_COQCHK', '1') == '1':
+            # independent re-check of the compiled cone with coqchk (-o lists the axioms it relies on)
+            t2 = time.time()
+            rc3, out3 = sh('coqchk -o -silent -Q . V V.Props.%s 2>&1' % pid, cwd=COQ, timeout=2400)
+            out3 = out3[-4000:]
+            m = re.search(r'\* Axioms:(.*?)\n\s*\n', out3 + '\n\n', re.S)
+            ax = ' '.join(m.group(1).split()) if m else None
+            self.cov['coqchk'] = {'exit': rc3, 'axioms': ax, 'wall_s': round(time.time() - t2, 1)}
+            if rc3 == 124:
+                self.notes.append('coqchk did not finish within its time limit (not counted as a failure)')
+            elif rc3 != 0 or (ax is not None and ax != '<none>'):
+                self.proof_ok = False
+                self.proof_failure = {'file': 'Props/%s.v' % pid, 'lemma': None,
+                                      'message': 'coqchk: exit %s, axioms %s: %s' % (rc3, ax, out3[-600:])}
         self.cov['checker_cmd'] = 'make -C coq Props/%s.vo (coqc 8.16.1 kernel, full .vo build) + coqc Props/%s.v for Print Assumptions + forbidden-declaration grep over coq/**' % (pid, pid)
         return self.proof_ok
 
